@@ -1923,3 +1923,21 @@ Proof.
   destruct (set_bits_correct a k i j) as [E3 _]. rewrite E1, E3. split; [|exact E2].
   apply trunc_id. apply (inrange_mono _ k); [lia|]. apply trunc_range. lia.
 Qed.
+
+(* ------------------------------------------------------------------ put with one (scalar) value *)
+(* m.put(ix, x) with a bare int x -- the code wraps it into (x,) -- writes x mod 2^bits at the resolved
+   position for EVERY x, the value 0 included; only an empty list/tuple of values means "nothing to place" *)
+Theorem put_scalar_value r c a ix x mode p i j : wfx r c a ->
+  put_ix (Z.of_nat (r * c)) mode ix = Some p -> (i < r)%nat -> (j < c)%nat ->
+  exists res, mput_list a [ix] [x] mode = Some res /\
+    el res i j = if Z.of_nat (i * c + j) =? p then trunc (bits a) x else el a i j.
+Proof.
+  intros W Hp Hi Hj. unfold mput_list. rewrite (wfx_rows r c a W), (wfx_cols r c a W).
+  cbn [put_loop]. rewrite Hp. cbn [put_val_list length Nat.leb nth].
+  eexists. split; [reflexivity|].
+  assert (Hcount : 0 < Z.of_nat (r * c)) by (destruct W as [_ [? ?]]; nia).
+  apply (set_flat_spec r c a p x i j W (put_ix_range _ _ _ _ Hcount Hp) Hi Hj).
+Qed.
+
+Theorem put_nothing a ind mode : mput_list a ind [] mode = Some a.
+Proof. reflexivity. Qed.
